@@ -47,13 +47,14 @@ pub const C_FOOT_GEN: u8 = 28;
 pub const C_UNREF: u8 = 29;         // bytes of the data area no manifest refers to (stale TOCs, old index images)
 pub const C_PAST: u8 = 30;          // at / past the end of the footer (truncation point only)
 pub const C_PAY_INACTIVE: u8 = 31;  // payload of a deleted / superseded frame
+pub const C_PAY_CHUNK: u8 = 32;     // payload of an active DocumentChunk frame whose parent has a chunk manifest
 
 pub fn class_name(c: u8) -> &'static str {
     ["hdr-magic", "hdr-footer-offset", "hdr-wal-offset", "hdr-wal-size", "hdr-checkpoint-pos", "hdr-wal-sequence", "hdr-toc-checksum",
      "hdr-legacy-lock", "hdr-padding", "log-record-seq", "log-record-len", "log-record-reserved", "log-record-digest", "log-record-payload",
      "log-sentinel", "log-slack", "payload-plain", "payload-zstd", "time-index", "tantivy-segment", "vec-index", "sketch-track",
      "memories-track", "mesh-track", "toc", "footer-magic", "footer-toc-len", "footer-toc-hash", "footer-generation", "unreferenced",
-     "past-footer", "payload-inactive"][c as usize]
+     "past-footer", "payload-inactive", "payload-chunk"][c as usize]
 }
 
 #[derive(Clone, Debug)]
@@ -140,7 +141,8 @@ pub fn region_map(b: &[u8]) -> (Vec<Region>, Toc, u64, u64) {
     add(C_WAL_SLACK, w0 + cur, wsz - cur, None);
     for f in &toc.frames {
         if f.payload_length == 0 { continue; }
-        let class = if f.status != FrameStatus::Active { C_PAY_INACTIVE } else { match f.canonical_encoding { CanonicalEncoding::Plain => C_PAY_PLAIN, CanonicalEncoding::Zstd => C_PAY_ZSTD } };
+        let chunk_of_manifest = f.role == FrameRole::DocumentChunk && f.parent_id.and_then(|p| toc.frames.get(p as usize)).is_some_and(|p| p.chunk_manifest.is_some());
+        let class = if f.status != FrameStatus::Active { C_PAY_INACTIVE } else if chunk_of_manifest { C_PAY_CHUNK } else { match f.canonical_encoding { CanonicalEncoding::Plain => C_PAY_PLAIN, CanonicalEncoding::Zstd => C_PAY_ZSTD } };
         add(class, f.payload_offset, f.payload_length, Some(f.id));
     }
     if let Some(t) = &toc.time_index { add(C_TIME_INDEX, t.bytes_offset, t.bytes_length, None); }
@@ -191,6 +193,10 @@ fn reads(m: &mut Memvid, nframes: u64, obs: &mut Obs) {
             Ok(f) => {
                 let meta = format!("{:?}|{:?}|{:?}|{}|{:?}|{:?}|{:?}|{:?}|{:?}|{:?}", f.status, f.uri, f.title, f.timestamp, f.role, f.parent_id, f.canonical_length, f.search_text.as_ref().map(|s| blake3::hash(s.as_bytes()).to_hex()[..12].to_string()), f.tags, f.chunk_index);
                 obs.push((format!("frame_meta[{}]", id), Ok(dg(&[meta.as_bytes()]))));
+                if f.status != FrameStatus::Active {
+                    // a deleted / superseded frame can still be read by id: it goes through read_frame_payload_bytes too
+                    obs.push((format!("payload[{}]", id), m.frame_canonical_payload(id).map(|b| dg(&[&b])).map_err(|e| e.to_string())));
+                }
                 if f.status == FrameStatus::Active {
                     obs.push((format!("payload[{}]", id), m.frame_canonical_payload(id).map(|b| dg(&[&b])).map_err(|e| e.to_string())));
                     obs.push((format!("text[{}]", id), m.frame_text_by_id(id).map(|t| dg(&[t.as_bytes()])).map_err(|e| e.to_string())));
@@ -217,15 +223,16 @@ pub enum Verdict { Error, Same, Diff }
 /// verdict of one opened-and-read copy against the clean observation
 fn judge(base: &Obs, got: &Result<Obs, String>) -> (Verdict, String) {
     let got = match got { Err(e) => return (Verdict::Error, format!("open: {}", e)), Ok(g) => g };
-    let mut err = None; let mut diff = None;
+    let mut err = None; let mut diff: Option<String> = None;
+    let add = |d: &mut Option<String>, t: String| { match d { Some(s) => { s.push_str(", "); s.push_str(&t); }, None => *d = Some(t) } };
     for (name, bv) in base {
         match got.iter().find(|(n, _)| n == name) {
-            None => { if bv.is_ok() { diff.get_or_insert(format!("{} missing", name)); } }
+            None => { if bv.is_ok() { add(&mut diff, format!("{} missing", name)); } }
             Some((_, Err(e))) => { if bv.is_ok() { err.get_or_insert(format!("{}: {}", name, e)); } }
-            Some((_, Ok(v))) => { match bv { Ok(b) if b == v => {}, Ok(_) => { diff.get_or_insert(format!("{} differs", name)); }, Err(_) => { diff.get_or_insert(format!("{} answers where the clean file fails", name)); } } }
+            Some((_, Ok(v))) => { match bv { Ok(b) if b == v => {}, Ok(_) => { add(&mut diff, format!("{} differs", name)); }, Err(_) => { add(&mut diff, format!("{} answers where the clean file fails", name)); } } }
         }
     }
-    for (name, v) in got { if v.is_ok() && !base.iter().any(|(n, _)| n == name) { diff.get_or_insert(format!("{} is new", name)); } }
+    for (name, v) in got { if v.is_ok() && !base.iter().any(|(n, _)| n == name) { add(&mut diff, format!("{} is new", name)); } }
     if let Some(d) = diff { (Verdict::Diff, d) } else if let Some(e) = err { (Verdict::Error, e) } else { (Verdict::Same, String::new()) }
 }
 
@@ -419,13 +426,14 @@ pub fn run(seed: u64, n: usize, tier: &str, w: &mut dyn std::io::Write) {
         let mut faults: Vec<Fault> = vec![];
         let mut seq_regions = 0usize; let mut tantivy_regions = 0usize;
         let budget = n.max(40) / scs.len();      // faults per scenario (roughly)
-        let dense: &[u8] = &[C_HDR_MAGIC, C_HDR_FOOTER_OFF, C_HDR_WAL_OFF, C_HDR_WAL_SIZE, C_HDR_CKPT_POS, C_HDR_WAL_SEQ, C_HDR_TOC_SUM, C_WAL_SEQ, C_WAL_LEN, C_WAL_RESERVED, C_WAL_DIGEST,
+        let dense: &[u8] = &[C_PAY_CHUNK, C_HDR_MAGIC, C_HDR_FOOTER_OFF, C_HDR_WAL_OFF, C_HDR_WAL_SIZE, C_HDR_CKPT_POS, C_HDR_WAL_SEQ, C_HDR_TOC_SUM, C_WAL_SEQ, C_WAL_LEN, C_WAL_RESERVED, C_WAL_DIGEST,
                              C_TIME_INDEX, C_FOOT_MAGIC, C_FOOT_LEN, C_FOOT_HASH, C_FOOT_GEN, C_PAY_PLAIN, C_PAY_ZSTD, C_TOC];
         // regions of at most 64 bytes of the dense classes: every byte; the larger ones (payloads, TOC): every byte in
         // thorough, else an even sample with a random phase sized to the budget
         let small_total: u64 = regions.iter().filter(|g| dense.contains(&g.class) && g.end - g.start <= 64).map(|g| g.end - g.start).sum();
         let large_total: u64 = regions.iter().filter(|g| dense.contains(&g.class) && g.end - g.start > 64).map(|g| g.end - g.start).sum();
-        let large_share = (budget as u64).saturating_sub(small_total + 200).max(60);
+        let _ = small_total;
+        let large_share = (budget as u64 / 2).max(60);
         let step = if thorough { 1 } else { ((large_total + large_share - 1) / large_share).max(1) };
         for g in &regions {
             let span = g.end - g.start;
@@ -441,6 +449,8 @@ pub fn run(seed: u64, n: usize, tier: &str, w: &mut dyn std::io::Write) {
                 let k = if thorough { (span / 4).max(8) } else { match g.class { C_WAL_SLACK | C_HDR_PAD => 5, C_UNREF | C_WAL_SENTINEL | C_HDR_LEGACY => 3, C_WAL_PAYLOAD | C_TANTIVY => 4, _ => 8 } };
                 for _ in 0..k.min(span) { faults.push(Fault::Flip { off: g.start + r.below(span), bit: r.below(8) as u8 }); }
             }
+            // the header's log fields decide by value: every bit of their two low bytes as well
+            if [C_HDR_WAL_OFF, C_HDR_WAL_SIZE, C_HDR_WAL_SEQ].contains(&g.class) { for b in 0..2u64 { for bit in 0..8u8 { faults.push(Fault::Flip { off: g.start + b, bit }); } } }
             // zeroing of aligned 64-byte blocks: first, last and one random block of the region (quick: one random block and
             // one truncation point for the repeated regions: log records after the first, Tantivy segments after the first)
             let repeated = !thorough && (([C_WAL_SEQ, C_WAL_LEN, C_WAL_RESERVED, C_WAL_DIGEST, C_WAL_PAYLOAD].contains(&g.class) && seq_regions > 1) || (g.class == C_TANTIVY && { tantivy_regions += 1; tantivy_regions > 1 }));
@@ -461,8 +471,12 @@ pub fn run(seed: u64, n: usize, tier: &str, w: &mut dyn std::io::Write) {
             let (class, frame) = class_at(&regions, off);
             let kname = ["flip", "zero", "trunc"][kind as usize];
             let silent = o.rw == Verdict::Diff || o.ro == Verdict::Diff;
-            let tag = class_name(class);
-            let viol = if silent { Some(format!("{}: {} {:?} of {} {}-> {}{}", tag, kname, f, sc.name, frame.map(|x| format!("(frame {}) ", x)).unwrap_or_default(), o.why, if o.verify == 0 { " [verify(deep) = Passed]" } else { "" })) } else { None };
+            // a chunk's damaged payload: the only known residue is search falling back to search_text (every differing read is a search)
+            let only_search = o.why.split("; ").filter(|p| p.starts_with("rw ") || p.starts_with("ro ")).all(|p| p[3..].split(", ").all(|n| n.starts_with("search[")));
+            let tag = if class == C_PAY_CHUNK && only_search && o.verify != 0 { "payload-chunk-search-fallback" } else { class_name(class) };
+            // since 55d5bb8 a changed payload of an active frame must also make verify(deep) fail (FramePayloadChecksums)
+            let unseen = o.changed && kind != 2 && (class == C_PAY_PLAIN || class == C_PAY_ZSTD || class == C_PAY_CHUNK) && o.verify == 0;
+            let viol = if unseen && !silent { Some(format!("{}: {} {:?} of {} {}-> verify(deep) = Passed on a file in which the stored payload of an active frame changed ({})", tag, kname, f, sc.name, frame.map(|x| format!("(frame {}) ", x)).unwrap_or_default(), o.why)) } else if silent { Some(format!("{}: {} {:?} of {} {}-> {}{}", tag, kname, f, sc.name, frame.map(|x| format!("(frame {}) ", x)).unwrap_or_default(), o.why, if o.verify == 0 { " [verify(deep) = Passed]" } else { "" })) } else { None };
             *summary.entry((sc.name.to_string(), format!("{}/{}", class_name(class), kname), format!("rw={:?} ro={:?} v={} ch={}", o.rw, o.ro, o.verify, o.changed))).or_default() += 1;
             if debug && (silent || o.ms[0] > 1500 || std::env::var("C20_ALL").is_ok()) { eprintln!("{} {:?} {} -> rw {:?} ro {:?} verify {} ({} ms) :: {}", sc.name, f, class_name(class), o.rw, o.ro, o.verify, o.ms[0], o.why); }
             let output = T::Tup(vec![T::N(vcode(o.rw)), T::N(vcode(o.ro)), T::N(o.verify as u128)]);
